@@ -609,10 +609,22 @@ impl RandomProp for IndexOnly {
                     Just((0..n).collect::<Vec<usize>>()).prop_shuffle(),
                     proptest::collection::vec(filler(), n + 1),
                     any::<bool>(),
+                    0u8..4,
                 )
-                    .prop_map(move |(geoms, order, fillers, identity)| {
+                    .prop_map(move |(geoms, order, fillers, identity, numbering)| {
                         let mut m = FileModel::simple(ty, geoms);
                         m.order = if identity { (0..n).collect() } else { order };
+                        // record numbers: by index rank (0, 1), by physical position - what the specification asks of a
+                        // .shp (2) -, or arbitrary (3): with an index they play no role
+                        if numbering == 2 {
+                            for (k, ri) in m.order.clone().into_iter().enumerate() {
+                                m.recs[ri].number = k as i32 + 1;
+                            }
+                        } else if numbering == 3 {
+                            for (i, r) in m.recs.iter_mut().enumerate() {
+                                r.number = [0, -1, 7, i32::MAX, 1, i32::MIN][(i * 5 + n) % 6];
+                            }
+                        }
                         m.fillers = fillers;
                         LayoutCase { model: m }
                     })
